@@ -28,8 +28,8 @@ use tantivy::query::{
     PhraseQuery, Query, RangeQuery, RegexQuery, TermQuery, TermSetQuery,
 };
 use tantivy::schema::{
-    BytesOptions, DateOptions, Field, IndexRecordOption, IpAddrOptions, NumericOptions, Schema,
-    TextFieldIndexing, TextOptions,
+    BytesOptions, DateOptions, Field, IndexRecordOption, IpAddrOptions, JsonObjectOptions, NumericOptions,
+    OwnedValue, Schema, TextFieldIndexing, TextOptions,
 };
 use tantivy::{DateTime, DocSet, Index, IndexWriter, Searcher, TantivyDocument, Term, TERMINATED};
 
@@ -46,13 +46,18 @@ const F_FLAG: u32 = 9;
 const F_BLOB: u32 = 10;
 const F_IFAST: u32 = 11;
 const F_CAT: u32 = 12;
-const FIELD_NAMES: [&str; 13] = ["id", "body", "title", "tag", "num", "inum", "score", "when", "ip", "flag", "blob", "ifast", "cat"];
+const F_ATTRS: u32 = 13;
+/// model-side fast "field" of the JSON path `attrs.<JKEYS[i]>`
+const F_JSON_FAST0: u32 = 100;
+const JKEYS: [&str; 3] = ["k", "n", "t"];
+const FIELD_NAMES: [&str; 14] = ["id", "body", "title", "tag", "num", "inum", "score", "when", "ip", "flag", "blob", "ifast", "cat", "attrs"];
 
 const K_F4: &str = "C03:msm-ignored-single-should-clause";
 const K_F4M: &str = "C03:msm-ignored-single-must-clause";
 const K_S6: &str = "C03:phrase-slop3-count-vs-score-differ";
 const K_PANIC_PHRASE: &str = "C03:excluded-phrase-scorer-seek-danger-debug-assert";
 const K_IP_OVERFLOW: &str = "C03:ip-range-excluded-bound-overflow";
+const K_FZP: &str = "C03:fuzzy-prefix-forgets-improvable-prefix-match";
 const K_S6B: &str = "C03:phrase-slop3-differs-from-budget-meaning";
 
 fn fld(id: u32) -> Field {
@@ -77,6 +82,9 @@ fn build_schema() -> Schema {
     sb.add_bytes_field("blob", BytesOptions::default().set_fast().set_indexed());
     sb.add_i64_field("ifast", NumericOptions::default().set_fast().set_indexed());
     sb.add_text_field("cat", text("raw", IndexRecordOption::Basic).set_fast(None));
+    sb.add_json_field("attrs", JsonObjectOptions::default()
+        .set_indexing_options(TextFieldIndexing::default().set_tokenizer("default").set_index_option(IndexRecordOption::WithFreqsAndPositions))
+        .set_fast(None));
     sb.build()
 }
 
@@ -103,6 +111,20 @@ struct DocSpec {
     ifast: Option<i64>,
     #[serde(default)]
     cat: Option<String>,
+    /// flat JSON object: (index into JKEYS, value)
+    #[serde(default)]
+    attrs: Option<Vec<(usize, JVal)>>,
+}
+
+#[derive(Clone, Debug, Serialize, Deserialize, PartialEq)]
+enum JVal {
+    Str(String),
+    Int(i64),
+    Bool(bool),
+}
+
+fn json_term(key: usize) -> Term {
+    Term::from_field_json_path(fld(F_ATTRS), JKEYS[key], false)
 }
 
 #[derive(Clone, Debug, Default, Serialize, Deserialize)]
@@ -145,6 +167,10 @@ enum Val {
     Ip(String),
     Bool(bool),
     Bytes(Vec<u8>),
+    /// a token of a string value under a JSON path
+    JStr(usize, String),
+    /// an integer under a JSON path
+    JInt(usize, i64),
 }
 
 #[derive(Clone, Debug, Serialize, Deserialize, PartialEq)]
@@ -165,6 +191,8 @@ impl TermS {
             Val::Ip(s) => Term::from_field_ip_addr(f, Ipv6Addr::from(s.parse::<u128>().unwrap())),
             Val::Bool(b) => Term::from_field_bool(f, *b),
             Val::Bytes(b) => Term::from_field_bytes(f, b),
+            Val::JStr(k, s) => { let mut t = json_term(*k); t.append_type_and_str(s); t }
+            Val::JInt(k, v) => { let mut t = json_term(*k); t.append_type_and_fast_value(*v); t }
         }
     }
     fn bytes(&self) -> Vec<u8> {
@@ -179,7 +207,8 @@ impl TermS {
             Val::Date(s) => date_enc(*s) as u128,
             Val::Ip(s) => s.parse::<u128>().unwrap(),
             Val::Bool(b) => *b as u128,
-            Val::Str(_) | Val::Bytes(_) => 0,
+            Val::JInt(_, v) => i64_enc(*v) as u128,
+            Val::Str(_) | Val::Bytes(_) | Val::JStr(..) => 0,
         }
     }
     /// expected term bytes: big-endian of the encoding (numeric types)
@@ -189,6 +218,7 @@ impl TermS {
             Val::U64(_) | Val::I64(_) | Val::F64(_) | Val::Date(_) | Val::Bool(_) => Some((self.enc() as u64).to_be_bytes().to_vec()),
             Val::Str(s) => Some(s.as_bytes().to_vec()),
             Val::Bytes(b) => Some(b.clone()),
+            Val::JStr(..) | Val::JInt(..) => None,
         }
     }
 }
@@ -234,6 +264,37 @@ fn analyse(index: &Index, d: &DocSpec) -> MDoc {
     if let Some(v) = d.flag { val(F_FLAG, Val::Bool(v), true, false); }
     if let Some(v) = &d.blob { val(F_BLOB, Val::Bytes(v.clone()), true, true); }
     if let Some(v) = d.ifast { val(F_IFAST, Val::I64(v), true, true); }
+    if let Some(attrs) = &d.attrs {
+        for (k, v) in attrs {
+            match v {
+                JVal::Str(sv) => {
+                    let mut an = index.tokenizer_for_field(fld(F_ATTRS)).unwrap();
+                    let mut st = an.token_stream(sv);
+                    let mut by_term: BTreeMap<Vec<u8>, Vec<u32>> = BTreeMap::new();
+                    while st.advance() {
+                        let t = st.token();
+                        let term = TermS { f: F_ATTRS, v: Val::JStr(*k, t.text.clone()) };
+                        by_term.entry(term.bytes()).or_default().push(t.position as u32);
+                    }
+                    for (t, ps) in by_term {
+                        m.postings.push((F_ATTRS, t, ps));
+                    }
+                    m.fast.push((F_JSON_FAST0 + *k as u32, 0));
+                }
+                JVal::Int(i) => {
+                    let term = TermS { f: F_ATTRS, v: Val::JInt(*k, *i) };
+                    m.postings.push((F_ATTRS, term.bytes(), vec![0]));
+                    m.fast.push((F_JSON_FAST0 + *k as u32, term.enc()));
+                }
+                JVal::Bool(bv) => {
+                    let mut t = json_term(*k);
+                    t.append_type_and_fast_value(*bv);
+                    m.postings.push((F_ATTRS, t.serialized_value_bytes().to_vec(), vec![0]));
+                    m.fast.push((F_JSON_FAST0 + *k as u32, *bv as u128));
+                }
+            }
+        }
+    }
     m
 }
 
@@ -252,6 +313,14 @@ fn to_tantivy_doc(d: &DocSpec) -> TantivyDocument {
     if let Some(v) = &d.blob { t.add_bytes(fld(F_BLOB), v); }
     if let Some(v) = d.ifast { t.add_i64(fld(F_IFAST), v); }
     if let Some(s) = &d.cat { t.add_text(fld(F_CAT), s); }
+    if let Some(attrs) = &d.attrs {
+        let obj: std::collections::BTreeMap<String, OwnedValue> = attrs.iter().map(|(k, v)| (JKEYS[*k].to_string(), match v {
+            JVal::Str(s) => OwnedValue::Str(s.clone()),
+            JVal::Int(i) => OwnedValue::I64(*i),
+            JVal::Bool(b) => OwnedValue::Bool(*b),
+        })).collect();
+        t.add_object(fld(F_ATTRS), obj);
+    }
     t
 }
 
@@ -416,6 +485,12 @@ enum Oc {
 enum Q {
     Term(TermS),
     Phrase { f: u32, terms: Vec<(usize, String)>, slop: u32 },
+    /// phrase over the tokens of the string under JSON path `attrs.k`
+    JPhrase { terms: Vec<(usize, String)>, slop: u32 },
+    /// exists on `attrs.<key>` (None: on `attrs` with json_subpaths)
+    JExists(Option<usize>),
+    /// range over the integers under JSON path `attrs.n` (fast-field path)
+    JRange { lo: Option<(bool, i64)>, hi: Option<(bool, i64)> },
     PhrasePrefix { f: u32, terms: Vec<(usize, String)> },
     /// `fast`: RangeQuery on a fast field (fast-field path); else the term-dictionary path
     /// (`RangeQuery` on a non-fast field, or `InvertedIndexRangeQuery` when `inverted`)
@@ -457,11 +532,25 @@ impl Q {
     fn real(&self) -> Box<dyn Query> {
         match self {
             Q::Term(t) => {
-                let opt = match t.f { F_BODY => IndexRecordOption::WithFreqsAndPositions, F_TITLE => IndexRecordOption::WithFreqs, _ => IndexRecordOption::Basic };
+                let opt = match t.f { F_BODY | F_ATTRS => IndexRecordOption::WithFreqsAndPositions, F_TITLE => IndexRecordOption::WithFreqs, _ => IndexRecordOption::Basic };
                 Box::new(TermQuery::new(t.term(), opt))
             }
             Q::Phrase { f, terms, slop } => Box::new(PhraseQuery::new_with_offset_and_slop(
                 terms.iter().map(|(o, s)| (*o, Term::from_field_text(fld(*f), s))).collect(), *slop)),
+            Q::JPhrase { terms, slop } => Box::new(PhraseQuery::new_with_offset_and_slop(
+                terms.iter().map(|(o, s)| (*o, TermS { f: F_ATTRS, v: Val::JStr(0, s.clone()) }.term())).collect(), *slop)),
+            Q::JExists(k) => match k {
+                Some(k) => Box::new(ExistsQuery::new(format!("attrs.{}", JKEYS[*k]), false)),
+                None => Box::new(ExistsQuery::new("attrs".to_string(), true)),
+            },
+            Q::JRange { lo, hi } => {
+                let b = |x: &Option<(bool, i64)>| match x {
+                    None => Bound::Unbounded,
+                    Some((true, v)) => Bound::Included(TermS { f: F_ATTRS, v: Val::JInt(1, *v) }.term()),
+                    Some((false, v)) => Bound::Excluded(TermS { f: F_ATTRS, v: Val::JInt(1, *v) }.term()),
+                };
+                Box::new(RangeQuery::new(b(lo), b(hi)))
+            }
             Q::PhrasePrefix { f, terms } => {
                 let mut q = PhrasePrefixQuery::new_with_offset(terms.iter().map(|(o, s)| (*o, Term::from_field_text(fld(*f), s))).collect());
                 q.set_max_expansions(100_000);
@@ -507,6 +596,33 @@ impl Q {
                 ts.sort_by_key(|x| x.0);
                 out.extend(["P".into(), f.to_string(), slop.to_string(), ts.len().to_string()]);
                 pairs(&ts, out);
+            }
+            Q::JPhrase { terms, slop } => {
+                let mut ts = terms.clone();
+                ts.sort_by_key(|x| x.0);
+                out.extend(["P".into(), F_ATTRS.to_string(), slop.to_string(), ts.len().to_string()]);
+                for (o, s) in &ts {
+                    out.push(o.to_string());
+                    out.push(hexs(&TermS { f: F_ATTRS, v: Val::JStr(0, s.clone()) }.bytes()));
+                }
+            }
+            Q::JExists(k) => match k {
+                Some(k) => out.extend(["E".into(), (F_JSON_FAST0 + *k as u32).to_string()]),
+                None => {
+                    out.extend(["D".into(), JKEYS.len().to_string()]);
+                    for k in 0..JKEYS.len() {
+                        out.extend(["E".into(), (F_JSON_FAST0 + k as u32).to_string()]);
+                    }
+                }
+            },
+            Q::JRange { lo, hi } => {
+                out.extend(["RF".into(), (F_JSON_FAST0 + 1).to_string()]);
+                for b in [lo, hi] {
+                    match b {
+                        None => out.extend(["u".into(), "-".into()]),
+                        Some((incl, v)) => out.extend([if *incl { "i".to_string() } else { "e".to_string() }, i64_enc(*v).to_string()]),
+                    }
+                }
             }
             Q::PhrasePrefix { f, terms } => {
                 let mut ts = terms.clone();
@@ -566,6 +682,14 @@ impl Q {
         self.enc(vocab, &mut v);
         v.join(":")
     }
+    fn leaves(&self, out: &mut Vec<Q>) {
+        match self {
+            Q::Boost(q) | Q::Const(q) => q.leaves(out),
+            Q::DisMax(qs) => qs.iter().for_each(|q| q.leaves(out)),
+            Q::Bool(cs, _) => cs.iter().for_each(|(_, q)| q.leaves(out)),
+            l => out.push(l.clone()),
+        }
+    }
     fn depth(&self) -> usize {
         match self {
             Q::Boost(q) | Q::Const(q) => 1 + q.depth(),
@@ -593,7 +717,7 @@ impl Q {
     }
     /// a phrase (or phrase-prefix) somewhere below a MUST_NOT clause
     fn sig_excluded_phrase(&self) -> bool {
-        self.any(&|q| matches!(q, Q::Bool(cs, _) if cs.iter().any(|(o, sub)| *o == Oc::MustNot && sub.any(&|x| matches!(x, Q::Phrase { .. } | Q::PhrasePrefix { .. })))))
+        self.any(&|q| matches!(q, Q::Bool(cs, _) if cs.iter().any(|(o, sub)| *o == Oc::MustNot && sub.any(&|x| matches!(x, Q::Phrase { .. } | Q::JPhrase { .. } | Q::PhrasePrefix { .. })))))
     }
     /// an ip fast-field range whose exclusive upper bound is :: (0) or whose exclusive lower
     /// bound is ffff:…:ffff (u128::MAX)
@@ -601,14 +725,21 @@ impl Q {
         let is = |b: &Bd, v: u128| matches!(b, Bd::Excl(TermS { v: Val::Ip(s), .. }) if s.parse::<u128>().ok() == Some(v));
         self.any(&|q| matches!(q, Q::Range { f, lo, hi, fast: true, .. } if *f == F_IP && (is(hi, 0) || is(lo, u128::MAX))))
     }
+    /// a fuzzy query in prefix mode
+    fn sig_fzp(&self) -> bool {
+        self.any(&|q| matches!(q, Q::Fuzzy { prefix: true, .. }))
+    }
     /// S6 signature: a phrase of ≥ 3 terms with slop ≥ 1
     fn sig_s6(&self) -> bool {
-        self.any(&|q| matches!(q, Q::Phrase { terms, slop, .. } if terms.len() >= 3 && *slop >= 1))
+        self.any(&|q| matches!(q, Q::Phrase { terms, slop, .. } | Q::JPhrase { terms, slop } if terms.len() >= 3 && *slop >= 1))
     }
     fn kinds(&self, out: &mut BTreeSet<String>) {
         let k = match self {
-            Q::Term(t) => format!("term:{}", FIELD_NAMES[t.f as usize]),
+            Q::Term(t) => format!("term:{}{}", FIELD_NAMES[t.f as usize], match &t.v { Val::JStr(..) => ":str", Val::JInt(..) => ":int", _ => "" }),
             Q::Phrase { terms, slop, .. } => format!("phrase:{}terms:slop{}", terms.len().min(4), (*slop).min(3)),
+            Q::JPhrase { terms, slop } => format!("json-phrase:{}terms:slop{}", terms.len().min(4), (*slop).min(3)),
+            Q::JExists(k) => format!("json-exists:{}", if k.is_some() { "path" } else { "subpaths" }),
+            Q::JRange { .. } => "json-range:fast".into(),
             Q::PhrasePrefix { terms, .. } => format!("phrase-prefix:{}", terms.len().min(3)),
             Q::Range { f, fast, inverted, .. } => format!("range:{}:{}", FIELD_NAMES[*f as usize], if *fast { "fast" } else if *inverted { "inverted" } else if *f == F_CAT { "str-fast" } else { "termdict" }),
             Q::TermSet(_) => "term-set".into(),
@@ -648,7 +779,10 @@ fn has_term(d: &MDoc, f: u32, t: &[u8]) -> bool {
 }
 
 fn adjusted(d: &MDoc, f: u32, terms: &[(usize, String)], mx: usize) -> Vec<Vec<u64>> {
-    terms.iter().map(|(o, s)| positions(d, f, s.as_bytes()).iter().map(|p| *p as u64 + (mx - o) as u64).collect()).collect()
+    terms.iter().map(|(o, s)| {
+        let bytes = if f == F_ATTRS { TermS { f, v: Val::JStr(0, s.clone()) }.bytes() } else { s.as_bytes().to_vec() };
+        positions(d, f, &bytes).iter().map(|p| *p as u64 + (mx - o) as u64).collect()
+    }).collect()
 }
 
 fn slop_chain(prev: u64, budget: u64, rest: &[Vec<u64>]) -> bool {
@@ -704,6 +838,11 @@ fn eval(q: &Q, d: &MDoc) -> bool {
                 adj[0].iter().any(|p| slop_chain(*p, *slop as u64, &adj[1..]))
             }
         }
+        Q::JPhrase { terms, slop } => eval(&Q::Phrase { f: F_ATTRS, terms: terms.clone(), slop: *slop }, d),
+        Q::JExists(k) => d.fast.iter().any(|(g, _)| match k { Some(k) => *g == F_JSON_FAST0 + *k as u32, None => *g >= F_JSON_FAST0 }),
+        Q::JRange { lo, hi } => d.fast.iter().any(|(g, v)| *g == F_JSON_FAST0 + 1
+            && lo.map(|(incl, b)| if incl { *v >= i64_enc(b) as u128 } else { *v > i64_enc(b) as u128 }).unwrap_or(true)
+            && hi.map(|(incl, b)| if incl { *v <= i64_enc(b) as u128 } else { *v < i64_enc(b) as u128 }).unwrap_or(true)),
         Q::PhrasePrefix { f, terms } => {
             let mut ts = terms.clone();
             ts.sort_by_key(|x| x.0);
@@ -899,6 +1038,50 @@ fn vocab_of(b: &Built) -> HashMap<u32, BTreeSet<Vec<u8>>> {
     v
 }
 
+/// Which recorded deviation is *active* for this query on this corpus: for every sub-query that
+/// falsifies a named hypothesis (single-clause msm node, ≥3-term sloppy phrase, fuzzy prefix leaf)
+/// the implementation model and the specification are evaluated on the sub-query alone; the
+/// hypothesis is active iff they differ there. Returns the attribution key of the first active
+/// kind (None: no recorded deviation can explain a failure of this query).
+fn active_deviation(ctx: &mut Ctx, cl: &str, vocab: &HashMap<u32, BTreeSet<Vec<u8>>>, q: &Q) -> Option<&'static str> {
+    let mut subs: Vec<(&'static str, Q)> = vec![];
+    fn walk(q: &Q, subs: &mut Vec<(&'static str, Q)>) {
+        match q {
+            Q::Bool(cs, Some(m)) if cs.len() == 1 && cs[0].0 == Oc::Should && *m >= 2 => subs.push((K_F4, q.clone())),
+            Q::Bool(cs, Some(m)) if cs.len() == 1 && cs[0].0 == Oc::Must && *m >= 1 => subs.push((K_F4M, q.clone())),
+            Q::Phrase { terms, slop, .. } | Q::JPhrase { terms, slop } if terms.len() >= 3 && *slop >= 1 => subs.push((K_S6, q.clone())),
+            Q::Fuzzy { prefix: true, .. } => subs.push((K_FZP, q.clone())),
+            _ => {}
+        }
+        match q {
+            Q::Boost(x) | Q::Const(x) => walk(x, subs),
+            Q::DisMax(qs) => qs.iter().for_each(|x| walk(x, subs)),
+            Q::Bool(cs, _) => cs.iter().for_each(|(_, x)| walk(x, subs)),
+            _ => {}
+        }
+    }
+    walk(q, &mut subs);
+    if subs.is_empty() { return None; }
+    let joined = subs.iter().map(|(_, x)| x.model_str(vocab)).collect::<Vec<_>>().join(" ");
+    let split = |s: String| -> Vec<String> { s.split(';').map(|x| x.to_string()).collect() };
+    let ans = split(ctx.model.ask(&format!("C03 answer {cl} {joined}")));
+    let on = split(ctx.model.ask(&format!("C03 search 1 0 {cl} {joined}")));
+    let off = split(ctx.model.ask(&format!("C03 search 0 0 {cl} {joined}")));
+    let top = split(ctx.model.ask(&format!("C03 search 0 1 {cl} {joined}")));
+    if ans.len() != subs.len() || on.len() != subs.len() || off.len() != subs.len() || top.len() != subs.len() { return None; }
+    let mut active: Vec<&'static str> = vec![];
+    for (i, (k, _)) in subs.iter().enumerate() {
+        let (a, n, f, t) = (parse_ids(&ans[i]), parse_ids(&on[i]), parse_ids(&off[i]), parse_ids(&top[i]));
+        if n != a || f != a || t != a {
+            active.push(if *k == K_S6 { if n != f { K_S6 } else { K_S6B } } else { k });
+        }
+    }
+    for k in [K_F4, K_F4M, K_S6, K_S6B, K_FZP] {
+        if active.contains(&k) { return Some(k); }
+    }
+    None
+}
+
 static LAST_PANIC: std::sync::Mutex<String> = std::sync::Mutex::new(String::new());
 
 fn last_panic() -> String {
@@ -926,6 +1109,8 @@ fn check_queries(ctx: &mut Ctx, spec: &CorpusSpec, b: &Built, qs: &[Q]) {
         }
     }
     let mcount = split(ctx.model.ask(&format!("C03 count {cl} {joined}")));
+    // the named hypotheses of C03_compile_sound_partial, evaluated by the model on each query
+    let mok = split(ctx.model.ask(&format!("C03 ok {joined}")));
     let n_docs: usize = b.segs.iter().map(|s| s.len()).sum();
     let n_live = b.expected_live.len();
     let multi = b.segs.len() >= 2 || b.segs.iter().any(|s| s.iter().any(|d| !d.1));
@@ -968,7 +1153,22 @@ fn check_queries(ctx: &mut Ctx, spec: &CorpusSpec, b: &Built, qs: &[Q]) {
         if let Some(u) = &real.unsorted {
             ctx.report.violation("oracle", "C03:scorer-not-sorted", u.clone(), case.clone());
         }
+        if std::env::var("C03_DEBUG").is_ok() {
+            for p in &real.paths {
+                if let Out::Ids(v) = &p.3 {
+                    let diff: Vec<u64> = v.iter().filter(|i| !spec_ids.contains(i)).chain(spec_ids.iter().filter(|i| !v.contains(i))).cloned().collect();
+                    if !diff.is_empty() && p.0 == "DocSetCollector" {
+                        let docs: Vec<String> = diff.iter().map(|id| format!("{id}: {:?}", b.by_id.get(id).map(|d| d.postings.iter().map(|(f, t, ps)| format!("{f}:{}:{:?}", String::from_utf8_lossy(t), ps)).collect::<Vec<_>>()))).collect();
+                        ctx.report.notes.push(format!("DEBUG {} differs on {:?} for {}", p.0, docs, qstrs[i]));
+                    }
+                }
+            }
+        }
         let (f4, f4m, s6) = (q.sig_f4(), q.sig_f4m(), q.sig_s6());
+        let fzp = q.sig_fzp();
+        if mok.get(i).map(|s| s == "0").unwrap_or(false) != (f4 || f4m || s6 || fzp) {
+            ctx.report.violation("model", "C03:okq-vs-harness-signature", format!("model okQ = {:?} but harness signatures f4={f4} f4m={f4m} s6={s6} fuzzy-prefix={fzp} for {}", mok.get(i), qstrs[i]), case.clone());
+        }
         // the FilterCollector path keeps only documents whose `num` satisfies the predicate
         let keep = |id: &u64| b.by_id.get(id).map(|d| d.fast.iter().any(|(f, v)| *f == F_NUM && filter_pred(*v as u64))).unwrap_or(false);
         let filt = |name: &str, ids: &Vec<u64>| -> Vec<u64> { if name == FILTERED { ids.iter().filter(|i| keep(i)).cloned().collect() } else { ids.clone() } };
@@ -978,15 +1178,13 @@ fn check_queries(ctx: &mut Ctx, spec: &CorpusSpec, b: &Built, qs: &[Q]) {
         // does the implementation model (which mirrors exactly the recorded deviations: the
         // single-clause shortcut and the two slop algorithms) reproduce every real path?
         let impl_explains = real.paths.iter().all(|p| agrees(p.0, &p.3, &mi[p.1 as usize][p.2 as usize]));
-        // the scoring-on and scoring-off algorithms themselves disagree on this query
-        let slop_on_off = s6 && (mi[1][0] != mi[0][0]);
-        let known_key = |differs_from_spec: bool| -> Option<&'static str> {
-            if !impl_explains { return None; }
-            if f4 { Some(K_F4) } else if f4m { Some(K_F4M) }
-            else if s6 && slop_on_off { Some(K_S6) }
-            else if s6 && differs_from_spec { Some(K_S6B) }
-            else { None }
-        };
+        // a failure is attributed to a recorded deviation only if (1) the implementation model
+        // reproduces every real path and (2) that deviation is active on this corpus (computed
+        // lazily, only when some path fails)
+        let fails = real.paths.iter().any(|p| !matches!(p.3, Out::Err(_)) && !agrees(p.0, &p.3, &spec_ids))
+            || real.paths.iter().any(|p| match (&p.3, &off_ref) { (Out::Err(_), _) => false, (o, Some(Out::Ids(r))) => !agrees(p.0, o, r), _ => false });
+        let attributed: Option<&'static str> = if fails && impl_explains && (f4 || f4m || s6 || fzp) { active_deviation(ctx, &cl, &vocab, q) } else { None };
+        let known_key = |_differs_from_spec: bool| -> Option<&'static str> { attributed };
         for (name, scoring, top, out) in &real.paths {
             ctx.report.count(&format!("path:{name}"));
             if let Out::Err(e) = out {
@@ -1089,6 +1287,14 @@ fn gen_doc(rng: &mut Rng, id: u64, profile: u64) -> DocSpec {
     if p(rng, 4) { d.blob = Some(match rng.below(4) { 0 => vec![], 1 => vec![0], 2 => vec![0xff, 0], _ => { let k = 1 + rng.usize_below(3); rng.bytes(k) } }); }
     if p(rng, 6) { d.ifast = Some(boundary_i64(rng)); }
     if p(rng, 6) { d.cat = Some(rng.pick(&CATS).to_string()); }
+    if p(rng, 6) {
+        // flat object with distinct keys; every key holds one type across the corpus
+        let mut attrs = vec![];
+        if p(rng, 7) { attrs.push((0usize, JVal::Str(gen_text(rng, "")))); }
+        if p(rng, 7) { attrs.push((1usize, JVal::Int(if rng.chance(1, 2) { boundary_i64(rng) } else { rng.below(12) as i64 - 6 }))); }
+        if p(rng, 4) { attrs.push((2usize, JVal::Bool(rng.chance(1, 2)))); }
+        d.attrs = Some(attrs);
+    }
     d
 }
 
@@ -1229,7 +1435,23 @@ fn gen_leaf(rng: &mut Rng, pools: &Pools) -> Q {
             Q::TermSet((0..n).map(|_| if rng.chance(1, 3) { let f = *rng.pick(&[F_NUM, F_INUM]); typed_val(rng, f) } else { let f = *rng.pick(&[F_BODY, F_TAG, F_TITLE]); text_term(rng, f, pools) }).collect())
         }
         19 | 20 => Q::Exists(*rng.pick(&[F_NUM, F_SCORE, F_WHEN, F_IP, F_BLOB, F_IFAST, F_ID, F_CAT])),
-        21 => Q::All,
+        21 => if rng.chance(1, 2) { Q::All } else {
+            // JSON leaves
+            match rng.below(5) {
+                0 => Q::Term(TermS { f: F_ATTRS, v: Val::JStr(0, if rng.chance(1, 8) { "absent".into() } else { rng.pick(&pools.words).clone() }) }),
+                1 => Q::Term(TermS { f: F_ATTRS, v: Val::JInt(1, if rng.chance(1, 2) { boundary_i64(rng) } else { rng.below(12) as i64 - 6 }) }),
+                2 => {
+                    let n = 2 + rng.usize_below(2);
+                    Q::JPhrase { terms: (0..n).map(|i| (i, rng.pick(&pools.words).clone())).collect(), slop: if rng.chance(2, 3) { 0 } else { 1 + rng.below(2) as u32 } }
+                }
+                3 => Q::JExists(if rng.chance(1, 3) { None } else { Some(rng.usize_below(JKEYS.len())) }),
+                _ => {
+                    let mut b = |rng: &mut Rng| match rng.below(4) { 0 => None, _ => Some((rng.chance(1, 2), if rng.chance(1, 3) { boundary_i64(rng) } else { rng.below(12) as i64 - 6 })) };
+                    let (lo, hi) = (b(rng), b(rng));
+                    if lo.is_none() && hi.is_none() { Q::JRange { lo: Some((true, 0)), hi: None } } else { Q::JRange { lo, hi } }
+                }
+            }
+        },
         22 => Q::Empty,
         23..=25 => {
             let f = *rng.pick(&[F_BODY, F_BODY, F_TAG]);
@@ -1433,6 +1655,12 @@ pub fn replay(ctx: &mut Ctx, case: &serde_json::Value) {
                 Ok(b) => {
                     check_queries(ctx, &spec, &b, &[q.clone()]);
                     ctx.report.notes.push(format!("replayed {:?}", q));
+                    // shrink by clauses: every leaf of the tree on its own
+                    if std::env::var("C03_SPLIT").is_ok() {
+                        let mut ls = vec![];
+                        q.leaves(&mut ls);
+                        check_queries(ctx, &spec, &b, &ls);
+                    }
                 }
                 Err(e) => ctx.report.violation("oracle", "C03:index-build-failed", e, case.clone()),
             }
@@ -1451,6 +1679,7 @@ pub fn run(ctx: &mut Ctx) {
         "native Rust evaluator = Lean `answer`".into(),
         "real result = Lean `searchIds leafTree scoring` (compile model incl. single-clause shortcut)".into(),
         "Query::count = Lean Σ weightCount".into(),
+        "known deviations are attributed only when Lean okQ (F4 / S6 hypotheses) is false on the query and the implementation model reproduces every real path".into(),
         "phrase slop: real scoring-on / scoring-off scorers = Lean phraseOn / phraseOff per document".into(),
         "i64_to_u64 / f64_to_u64 = Gen.OrderEnc (extracted), monotone on sorted samples, term bytes = big-endian".into(),
     ];
